@@ -29,6 +29,7 @@ import warnings
 from hypothesis import strategies as st
 
 from checks import _sqltok as T
+from checks import c04 as _c04  # noqa: F401  (live engines / cursor shim; imported here so its driver preload is outside the time budgets)
 from vf.api import Enumerated, Generated, Violation  # noqa: F401
 
 PROPERTY = "C05"
@@ -635,7 +636,9 @@ _time_val = st.fixed_dictionaries({"t": st.just("time"), "v": st.one_of(st.sampl
                                                                           st.times().map(lambda d: [d.hour, d.minute, d.second, d.microsecond]))})
 _bool_val = st.fixed_dictionaries({"t": st.just("bool"), "v": st.booleans()})
 _none_val = st.fixed_dictionaries({"t": st.just("none"), "of": st.sampled_from(["str", "int"])})
-_values = st.one_of(_str_val, _str_val, _str_val, _str_val, _str_val, _str_val, _str_val, _str_val, _str_val, _int_val, _float_val, _dec_val(), _date_val, _dt_val, _time_val, _bool_val, _none_val)
+_others = [_int_val, _float_val, _dec_val(), _date_val, _dt_val, _time_val, _bool_val, _none_val]
+# weights by index (one_of() de-duplicates a repeated strategy object): strings are half of all values
+_values = st.integers(0, 15).flatmap(lambda n: _str_val if n < 8 else _others[n - 8])
 
 _live_cases = st.fixed_dictionaries({"val": _values, "pos": st.sampled_from(POSITIONS), "ps": st.sampled_from(["named", "format", "pyformat", "numeric", "numeric_dollar", "qmark"])})
 _token_cases = st.fixed_dictionaries({"val": _values, "pos": st.sampled_from(POSITIONS + ["in", "where"] + FINDING_POSITIONS), "mode": st.sampled_from(["lb", "le"])})
@@ -664,7 +667,7 @@ def _enum_cases(tier):
 
 def subs(tier):
     return [
-        Enumerated("token_enum", check_token, cases=_enum_cases, budget_s_quick=10.0),
-        Generated("token", check_token, strategy=_token_cases, quick=6000, thorough=300000, budget_s_quick=16.0),
-        Generated("live", check_live, strategy=_live_cases, quick=5000, thorough=200000, budget_s_quick=14.0),
+        Enumerated("token_enum", check_token, cases=_enum_cases, budget_s_quick=20.0),
+        Generated("token", check_token, strategy=_token_cases, quick=6000, thorough=300000, budget_s_quick=30.0),
+        Generated("live", check_live, strategy=_live_cases, quick=5000, thorough=200000, budget_s_quick=25.0),
     ]
